@@ -23,5 +23,17 @@ if ! cargo build --release --offline --manifest-path /verif/harness/Cargo.toml >
   fi
 fi
 rm -f "$LOG"
+# Instrumented copy of the subject (std::sync / std::thread rewritten to the scheduling shim) and its explorer, used by C20.
+# A failure here only removes that part of C20 (the check says so); it is never a verdict.
+REPO=${PPVERIF_REPO:-/repo}
+SB=$CARGO_TARGET_DIR/syncbuild
+if python3 /verif/syncshim/instrument.py "$REPO" "$SB" >"$CARGO_TARGET_DIR/ppsync.status" 2>&1 && \
+   cargo build --release --offline --manifest-path "$SB/ppsync/Cargo.toml" >"$CARGO_TARGET_DIR/ppsync.build.log" 2>&1; then
+  :
+else
+  rm -f "$CARGO_TARGET_DIR/release/ppsync"
+  { echo "instrumented build failed: $(grep -E '^error' -A4 "$CARGO_TARGET_DIR/ppsync.build.log" 2>/dev/null | head -5 | tr '\n' ' ')"; } >"$CARGO_TARGET_DIR/release/ppsync.status"
+  echo "NOTE: the instrumented copy of the subject did not build; C20 runs without its sync-level schedule exploration"
+fi
 [ "$1" = "--build" ] && exit 0
 exec /verif/target/release/ppverif "$@"
